@@ -1,5 +1,5 @@
 //@unit sm2_ecc
-//@serves C11
+//@serves C03 C04 C05 C06 C11 C15 C19
 //@source gm-sm2/src/p256_ecc.rs
 //@include-spec sm2_math
 //@section spec
@@ -31,6 +31,7 @@ type U256 = [u64; 4];
 const SM2_ZERO: U256 = [0, 0, 0, 0];
 //@stub sm2_limbs u256_from_be_bytes
 //@stub sm2_limbs u256_to_be_bytes
+//@stub sm2_limbs u256_cmp
 //@stub-trait sm2_fp FieldModOperation
 //@stub sm2_fp fp_sqrt
 //@stub sm2_fp fp_from_mont
@@ -85,7 +86,7 @@ enum Sm2Error {
     InvalidSecretKey,
     KdfHashError,
 }
-//@extract gm-sm2/src/sm2p256_table.rs SM2P256_PRECOMPUTED
+//@extract gm-sm2/src/sm2p256_table.rs SM2P256_PRECOMPUTED external_body
 //@section code gm-sm2/src/p256_ecc.rs
 #[derive(Debug, Clone, Eq, PartialEq, Copy)]
 struct Point {
@@ -111,7 +112,6 @@ impl Point {
         self.z == [0; 4]
     }
 
-    #[verifier::external_body]
     fn is_valid(&self) -> (r: bool)
         requires wf(*self)
         ensures r == on_curve(abs(*self))
@@ -131,11 +131,23 @@ impl Point {
             let xx_a_4z = xx.fp_add(&a_z4);
             let xxx_a_4z = xx_a_4z.fp_mul(&self.x);
             let exp = xxx_a_4z.fp_add(&z6_b);
+            proof {
+                ecc_consts();
+                let (x, y, z) = (fe(self.x@), fe(self.y@), fe(self.z@));
+                ecc_fe_range(self.x@); ecc_fe_range(self.y@); ecc_fe_range(self.z@);
+                ecc_fe_zero(self.z@);
+                ecc_small(z);
+                ax_inv_p(z);
+                let zi = inv_p(z);
+                ecc_jac_rhs(x, z, CA(), CB(), fe(xx@), fe(z2@), fe(z4@), fe(z6@), fe(z6_b@), fe(a_z4@), fe(xx_a_4z@), fe(xxx_a_4z@), fe(exp@));
+                ecc_jac_equiv(x, y, z, zi, CA(), CB());
+                ecc_range(x * zi * zi); ecc_range(y * zi * zi * zi);
+                if fe(yy@) == fe(exp@) { ecc_fe_inj(yy@, exp@); }
+            }
             yy.eq(&exp)
         }
     }
 
-    #[verifier::external_body]
     fn is_valid_affine_point(&self) -> (r: bool)
         requires wf(*self)
         ensures r == on_curve(Pt::Aff { x: fe(self.x@), y: fe(self.y@) })
@@ -146,10 +158,15 @@ impl Point {
         let xx_a = xx.fp_add(&SM2_MODP_MONT_A);
         let xxx_a = self.x.fp_mul(&xx_a);
         let exp = xxx_a.fp_add(&SM2_MODP_MONT_B);
+        proof {
+            ecc_consts();
+            ecc_affine_rhs(fe(self.x@), fe(xx@), fe(xx_a@), fe(xxx_a@), fe(exp@));
+            ecc_fe_range(self.x@); ecc_fe_range(self.y@);
+            if fe(yy@) == fe(exp@) { ecc_fe_inj(yy@, exp@); }
+        }
         yy.eq(&exp)
     }
 
-    #[verifier::external_body]
     fn to_affine_point(&self) -> (r: Point)
         requires wf(*self)
         ensures wf(r), fe(r.z@) == 1, val4(self.z@) != 0 ==> abs(r) == abs(*self),
@@ -161,6 +178,18 @@ impl Point {
         let z_inv3 = z_inv2.fp_mul(&z_inv);
         let x = self.x.fp_mul(&z_inv2);
         let y = self.y.fp_mul(&z_inv3);
+        proof {
+            ecc_consts();
+            let zi = inv_p(fe(self.z@));
+            ecc_affine_xy(fe(self.x@), fe(self.y@), zi, fe(z_inv2@), fe(z_inv3@), fe(x@), fe(y@));
+            ecc_abs_z1(x@, y@, SM2_MODP_MONT_ONE@);
+            if val4(self.z@) == 0 {
+                ecc_fe_zero(self.z@);
+                ecc_inv_zero();
+                assert(fe(self.x@) * 0 * 0 == 0 && fe(self.y@) * 0 * 0 * 0 == 0);
+                ecc_small(0);
+            }
+        }
         Point {
             x,
             y,
@@ -168,7 +197,6 @@ impl Point {
         }
     }
 
-    #[verifier::external_body]
     fn to_byte_be(&self, compress: bool) -> (ret: Vec<u8>)
         requires wf(*self), val4(self.z@) != 0
         ensures ret@ == sec1(abs(*self), compress)
@@ -177,6 +205,13 @@ impl Point {
         let mut x_vec = fp_from_mont(&p_affine.x).to_byte_be();
         let mut y_vec = fp_from_mont(&p_affine.y).to_byte_be();
         let mut ret: Vec<u8> = Vec::new();
+        let ghost xs = x_vec@;
+        let ghost ys = y_vec@;
+        proof {
+            ecc_fe_range(p_affine.x@); ecc_fe_range(p_affine.y@);
+            lemma_be_bytes_len(fe(p_affine.x@), 32); lemma_be_bytes_len(fe(p_affine.y@), 32);
+            ecc_be_last(fe(p_affine.y@));
+        }
         if compress {
             if y_vec[y_vec.len() - 1] & 0x01 == 0 {
                 ret.push(0x02);
@@ -189,10 +224,16 @@ impl Point {
             ret.append(&mut x_vec);
             ret.append(&mut y_vec);
         }
+        proof {
+            if compress {
+                assert(ret@ =~= seq![if fe(p_affine.y@) % 2 == 0 { 2u8 } else { 3u8 }] + xs);
+            } else {
+                assert(ret@ =~= seq![4u8] + xs + ys);
+            }
+        }
         ret
     }
 
-    #[verifier::external_body]
     fn from_byte(b: &[u8]) -> (res: Sm2Result<Point>)
         ensures res is Ok ==> wf(res->Ok_0) && fe(res->Ok_0.z@) == 1 && sec1_decodes(b@, abs(res->Ok_0)),
             (b@.len() != 33 && b@.len() != 65) ==> res is Err
@@ -212,17 +253,38 @@ impl Point {
             } else {
                 y_q = 1
             }
-            let x = fp_to_mont(&U256::from_byte_be(&b[1..]));
+            let x_raw = U256::from_byte_be(&b[1..]);
+            proof {
+                ecc_consts();
+                assert(b@.subrange(1, b@.len() as int).subrange(0, 32) =~= b@.subrange(1, 33));
+            }
+            if u256_cmp(&x_raw, &SM2_P) >= 0 {
+                return Err(Sm2Error::InvalidPublic);
+            }
+            let x = fp_to_mont(&x_raw);
             let xxx = x.fp_mul(&x).fp_mul(&x);
             let ax = x.fp_mul(&SM2_MODP_MONT_A);
             let yy = xxx
                 .fp_add(&ax)
                 .fp_add(&SM2_MODP_MONT_B);
+            proof { ecc_cubic(fe(x@), fe(yy@)); }
 
             let mut y = fp_sqrt(&yy)?;
             let y_vec = fp_from_mont(&y).to_byte_be();
+            let ghost y0 = y;
+            proof {
+                ecc_fe_range(y@); ecc_fe_range(x@);
+                ecc_be_last(fe(y@));
+                ecc_fe_zero(SM2_P@);
+                ecc_fe_zero(y@);
+                if fe(y@) == 0 { assert(0 * 0 == 0); ecc_small(0); ecc_no_2torsion(fe(x@)); }
+                ecc_flip_y(fe(y@));
+            }
             if y_vec[y_vec.len() - 1] & 0x01 != y_q {
                 y = SM2_P.fp_sub(&y);
+            }
+            proof {
+                ecc_abs_z1(x@, y@, SM2_MODP_MONT_ONE@);
             }
             Ok(Point {
                 x,
@@ -235,8 +297,21 @@ impl Point {
             if b.len() != 65 {
                 return Err(Sm2Error::InvalidPublic);
             }
-            let x = fp_to_mont(&u256_from_be_bytes(&b[1..33]));
-            let y = fp_to_mont(&u256_from_be_bytes(&b[33..65]));
+            let x_raw = u256_from_be_bytes(&b[1..33]);
+            let y_raw = u256_from_be_bytes(&b[33..65]);
+            proof {
+                ecc_consts();
+                assert(b@.subrange(1, 33).subrange(0, 32) =~= b@.subrange(1, 33));
+                assert(b@.subrange(33, 65).subrange(0, 32) =~= b@.subrange(33, 65));
+            }
+            if u256_cmp(&x_raw, &SM2_P) >= 0 || u256_cmp(&y_raw, &SM2_P) >= 0 {
+                return Err(Sm2Error::InvalidPublic);
+            }
+            let x = fp_to_mont(&x_raw);
+            let y = fp_to_mont(&y_raw);
+            proof {
+                ecc_abs_z1(x@, y@, SM2_MODP_MONT_ONE@);
+            }
             Ok(Point {
                 x,
                 y,
@@ -249,6 +324,12 @@ impl Point {
         requires wf(*self)
         ensures coords_le_p(r), abs(r) == g_neg(abs(*self))
     {
+        proof {
+            ecc_consts();
+            ecc_fe_zero(SM2_P@);
+            let zi = inv_p(fe(self.z@));
+            ecc_neg_y(fe(self.y@), (0 - fe(self.y@)) % P(), zi);
+        }
         Point {
             x: self.x.clone(),
             y: SM2_P.fp_sub(&self.y),
@@ -316,18 +397,28 @@ impl Point {
     }
 
     // P = [k]G
-    #[verifier::external_body]
     fn scalar_mul(&self, scalar: &[u64]) -> (r: Point)
         requires valid(*self), scalar@.len() == 4,
             val4(scalar@) < N()   // carve-out for known finding D13 (scalars >= n can hit the equal-point case)
         ensures valid(r), abs(r) == g_smul(val4(scalar@), abs(*self))
     {
         let mut pre_table = vec![];
-        for _ in 0..16 {
+        for _ in it0: 0..16
+            invariant pre_table@.len() == it0.index@, forall|k: int| 0 <= k < pre_table@.len() ==> valid(#[trigger] pre_table@[k])
+        {
             pre_table.push(Point::zero());
         }
 
         let mut r = Point::zero();
+        let ghost a = abs(*self);
+        proof {
+            ecc_smul_one(a);
+            assert(N() > 32) by(compute);
+            lemma_smul_add(1, 1, a); lemma_smul_add(2, 2, a); lemma_smul_add(4, 4, a); lemma_smul_add(1, 2, a); lemma_smul_add(3, 3, a);
+            lemma_smul_add(1, 6, a); lemma_smul_add(6, 6, a); lemma_smul_add(1, 4, a); lemma_smul_add(5, 5, a); lemma_smul_add(7, 7, a);
+            lemma_smul_add(1, 8, a); lemma_smul_add(1, 10, a); lemma_smul_add(1, 12, a); lemma_smul_add(1, 14, a);
+            ecc_no_d13(1, 2, a); ecc_no_d13(1, 6, a); ecc_no_d13(1, 4, a); ecc_no_d13(1, 8, a); ecc_no_d13(1, 10, a); ecc_no_d13(1, 12, a); ecc_no_d13(1, 14, a);
+        }
         pre_table[1 - 1] = *self;
         pre_table[2 - 1] = pre_table[1 - 1].point_dbl();
         pre_table[4 - 1] = pre_table[2 - 1].point_dbl();
@@ -335,30 +426,95 @@ impl Point {
         pre_table[3 - 1] = pre_table[1 - 1].point_add(&pre_table[2 - 1]);
         pre_table[6 - 1] = pre_table[3 - 1].point_dbl();
         pre_table[7 - 1] = pre_table[1 - 1].point_add(&pre_table[6 - 1]);
+        proof { assert(abs(pre_table@[6]) == g_smul(7, a) && valid(pre_table@[6])); }
         pre_table[12 - 1] = pre_table[6 - 1].point_dbl();
         pre_table[5 - 1] = pre_table[1 - 1].point_add(&pre_table[4 - 1]);
         pre_table[10 - 1] = pre_table[5 - 1].point_dbl();
         pre_table[14 - 1] = pre_table[7 - 1].point_dbl();
+        proof { assert(abs(pre_table@[13]) == g_smul(14, a) && valid(pre_table@[13])); }
         pre_table[9 - 1] = pre_table[1 - 1].point_add(&pre_table[8 - 1]);
         pre_table[11 - 1] = pre_table[1 - 1].point_add(&pre_table[10 - 1]);
         pre_table[13 - 1] = pre_table[1 - 1].point_add(&pre_table[12 - 1]);
         pre_table[15 - 1] = pre_table[1 - 1].point_add(&pre_table[14 - 1]);
+        let ghost mut acc: int = 0;
+        proof {
+            assert forall|k: int| 0 <= k < 15 implies valid(#[trigger] pre_table@[k]) && abs(pre_table@[k]) == g_smul(k + 1, a) by { }
+            ecc_hi_props(scalar@, 0);
+        }
 
-        for i in 0..scalar.len() {
-            for j in 0..(64 / 4) {
+        for i in iti: 0..scalar.len()
+            invariant
+                scalar@.len() == 4, val4(scalar@) < N(), valid(*self), a == abs(*self), valid(r), pre_table@.len() == 16,
+                forall|k: int| 0 <= k < 15 ==> valid(#[trigger] pre_table@[k]) && abs(pre_table@[k]) == g_smul(k + 1, a),
+                iti.index@ < 4 ==> abs(r) == g_smul(16 * acc, a) && acc == ecc_hi(scalar@, iti.index@ as int),
+                iti.index@ == 4 ==> abs(r) == g_smul(val4(scalar@), a),
+        {
+            proof { ecc_hi_props(scalar@, i as int); ecc_pow16_16(); ecc_tj_16(scalar@[3 - i]); assert(ecc_hi(scalar@, i as int) * 1 == ecc_hi(scalar@, i as int)); }
+            for j in itj: 0..(64 / 4)
+                invariant_except_break
+                    abs(r) == g_smul(16 * acc, a),
+                    acc == ecc_hi(scalar@, i as int) * ecc_pow16(itj.index@ as int) + ecc_tj(scalar@[3 - i], itj.index@ as int) as int,
+                    i == 3 ==> itj.index@ < 16,
+                invariant
+                    scalar@.len() == 4, val4(scalar@) < N(), valid(*self), a == abs(*self), valid(r), pre_table@.len() == 16, 0 <= i < 4,
+                    ecc_pow16(16) == 0x1_0000_0000_0000_0000int, ecc_tj(scalar@[3 - i], 16) == scalar@[3 - i],
+                    ecc_hi(scalar@, i + 1) == 0x1_0000_0000_0000_0000int * ecc_hi(scalar@, i as int) + scalar@[3 - i] as int,
+                    forall|k: int| 0 <= k < 15 ==> valid(#[trigger] pre_table@[k]) && abs(pre_table@[k]) == g_smul(k + 1, a),
+                ensures
+                    i < 3 ==> abs(r) == g_smul(16 * acc, a) && acc == ecc_hi(scalar@, i + 1),
+                    i == 3 ==> abs(r) == g_smul(val4(scalar@), a),
+            {
                 let index = scalar[4 - 1 - i] >> ((64 / 4 - 1 - j) * 4);
+                let ghost d = (index & 0x0f) as int;
+                let ghost w = scalar@[3 - i];
+                let ghost jj = j as int;
+                let ghost hi = ecc_hi(scalar@, i as int);
+                proof {
+                    assert(jj == itj.index@);
+                    ecc_nibble(w, jj);
+                    assert(index == w >> (((15 - jj) * 4) as u64));
+                    ecc_hi_props(scalar@, i as int);
+                    ecc_pow16_le(jj + 1, 16); ecc_pow16_16();
+                    assert(ecc_pow16(jj + 1) == 16 * ecc_pow16(jj));
+                    ecc_acc_step(hi, ecc_pow16(jj), ecc_tj(w, jj) as int, ecc_tj(w, jj + 1) as int, d, acc);
+                    ecc_acc_bound(hi, ecc_pow16(jj + 1), ecc_tj(w, jj + 1) as int, w as int);
+                    ecc_pow16_le(jj, 16);
+                    ecc_acc_bound(hi, ecc_pow16(jj), ecc_tj(w, jj) as int, w as int);
+                    assert(0 <= acc && 16 * acc + d <= val4(scalar@));
+                    lemma_smul_closed(16 * acc, a);
+                    if d != 0 {
+                        ecc_no_d13(d, 16 * acc, a);
+                        lemma_smul_add(d, 16 * acc, a);
+                    }
+                }
                 if index & 0x0f != 0 {
                     r = pre_table[((index - 1) & 0x0f) as usize].point_add(&r)
                 }
+                proof {
+                    acc = 16 * acc + d;
+                    assert(abs(r) == g_smul(acc, a));
+                    assert(acc == hi * ecc_pow16(jj + 1) + ecc_tj(w, jj + 1) as int);
+                }
 
                 if i + 1 == scalar.len() && j + 1 == 64 / 4 {
+                    proof {
+                        ecc_tj_16(w);
+                        assert(jj + 1 == 16 && i == 3);
+                        assert(acc == hi * 0x1_0000_0000_0000_0000int + w as int);
+                        assert(acc == val4(scalar@));
+                    }
                     break;
                 }
                 r = r.point_dbl();
+                proof { lemma_smul_add(acc, acc, a); }
                 r = r.point_dbl();
+                proof { lemma_smul_add(2 * acc, 2 * acc, a); }
                 r = r.point_dbl();
+                proof { lemma_smul_add(4 * acc, 4 * acc, a); }
                 r = r.point_dbl();
+                proof { lemma_smul_add(8 * acc, 8 * acc, a); }
             }
+            proof { ecc_hi_props(scalar@, i as int); }
         }
         r
     }
@@ -423,6 +579,476 @@ impl Point {
     r.x.copy_from_slice(x);
     r.y.copy_from_slice(y);
     r.z.copy_from_slice(&SM2_MODP_MONT_ONE);
+    proof { ecc_consts(); }
     r
 }
 
+//@section spec local
+use vstd::arithmetic::mul::*;
+// ---------------------------------------------------------------- ground facts about the code constants
+proof fn ecc_consts()
+    ensures val4(SM2_P@) == P(), SM2_P@.len() == 4, canon(SM2_ZERO@), val4(SM2_ZERO@) == 0,
+        canon(SM2_MODP_MONT_ONE@), val4(SM2_MODP_MONT_ONE@) != 0, fe(SM2_MODP_MONT_ONE@) == 1,
+        canon(SM2_MODP_MONT_A@), fe(SM2_MODP_MONT_A@) == CA(), canon(SM2_MODP_MONT_B@), fe(SM2_MODP_MONT_B@) == CB(),
+        P() > 3, 0 < RINV_P() < P(),
+{
+    assert(val4(SM2_P@) == P() && SM2_P@.len() == 4) by(compute);
+    assert(canon(SM2_ZERO@) && val4(SM2_ZERO@) == 0) by(compute);
+    assert(canon(SM2_MODP_MONT_ONE@) && val4(SM2_MODP_MONT_ONE@) != 0 && fe(SM2_MODP_MONT_ONE@) == 1) by(compute);
+    assert(canon(SM2_MODP_MONT_A@) && fe(SM2_MODP_MONT_A@) == CA()) by(compute);
+    assert(canon(SM2_MODP_MONT_B@) && fe(SM2_MODP_MONT_B@) == CB()) by(compute);
+    assert(P() > 3 && 0 < RINV_P() < P()) by(compute);
+}
+//@section spec
+// ---------------------------------------------------------------- arithmetic mod P()
+pub proof fn ecc_pos() ensures P() > 3, 0 < RINV_P() < P(), (r256() * RINV_P()) % P() == 1
+{ lemma_params(); assert(P() > 3) by(compute); }
+pub proof fn ecc_range(x: int) ensures 0 <= x % P() < P()
+{ ecc_pos(); lemma_mod_bound(x, P()); }
+pub proof fn ecc_small(x: int) requires 0 <= x < P() ensures x % P() == x
+{ lemma_small_mod(x as nat, P() as nat); }
+// (a op b) mod p may be computed on residues
+pub proof fn ecc_mul(a: int, b: int)
+    ensures ((a % P()) * b) % P() == (a * b) % P(), (a * (b % P())) % P() == (a * b) % P(), ((a % P()) * (b % P())) % P() == (a * b) % P()
+{ ecc_pos(); lemma_mul_mod_noop_general(a, b, P()); }
+pub proof fn ecc_add(a: int, b: int)
+    ensures ((a % P()) + b) % P() == (a + b) % P(), (a + (b % P())) % P() == (a + b) % P(), ((a % P()) + (b % P())) % P() == (a + b) % P()
+{ ecc_pos(); lemma_add_mod_noop(a, b, P()); lemma_add_mod_noop_right(a, b, P()); lemma_add_mod_noop_right(b, a, P()); }
+pub proof fn ecc_sub(a: int, b: int)
+    ensures ((a % P()) - b) % P() == (a - b) % P(), (a - (b % P())) % P() == (a - b) % P(), ((a % P()) - (b % P())) % P() == (a - b) % P()
+{ ecc_pos(); lemma_sub_mod_noop(a, b, P()); lemma_sub_mod_noop_right(a, b, P()); lemma_sub_mod_noop_right(a % P(), b, P()); }
+pub proof fn ecc_shift(x: int, k: int) ensures (x + k * P()) % P() == x % P()
+{
+    ecc_pos();
+    lemma_mod_multiples_vanish(k, x, P());
+    assert(P() * k + x == x + k * P()) by(nonlinear_arith);
+}
+// congruences: a == b (mod p) is preserved by * and +
+pub proof fn ecc_cong_mul(a: int, b: int, c: int) requires a % P() == b % P() ensures (a * c) % P() == (b * c) % P(), (c * a) % P() == (c * b) % P()
+{
+    ecc_mul(a, c); ecc_mul(b, c);
+    assert(a * c == c * a) by(nonlinear_arith);
+    assert(b * c == c * b) by(nonlinear_arith);
+}
+pub proof fn ecc_cong_add(a: int, b: int, c: int, d: int) requires a % P() == b % P(), c % P() == d % P() ensures (a + c) % P() == (b + d) % P(), (a - c) % P() == (b - d) % P()
+{ ecc_add(a, c); ecc_add(b, d); ecc_sub(a, c); ecc_sub(b, d); }
+// multiplying by something == 1 (mod p)
+pub proof fn ecc_unit(x: int, u: int) requires u % P() == 1 ensures (x * u) % P() == x % P(), (u * x) % P() == x % P()
+{
+    ecc_mul(x, u);
+    assert(x * 1 == x);
+    assert(x * u == u * x) by(nonlinear_arith);
+}
+// ---------------------------------------------------------------- Montgomery decoding fe
+pub proof fn ecc_fe_range(a: Seq<u64>) ensures 0 <= fe(a) < P()
+{ ecc_range(val4(a) * RINV_P()); }
+// fe(a) * R == val4(a) (mod p)
+pub proof fn ecc_fe_timesR(a: Seq<u64>) ensures (fe(a) * r256()) % P() == val4(a) % P()
+{
+    ecc_pos();
+    let v = val4(a); let u = r256() * RINV_P();
+    ecc_mul(v * RINV_P(), r256());
+    assert(v * RINV_P() * r256() == v * u) by(nonlinear_arith) requires u == r256() * RINV_P();
+    ecc_unit(v, u);
+}
+pub proof fn ecc_fe_inj(a: Seq<u64>, b: Seq<u64>) requires canon(a), canon(b), fe(a) == fe(b) ensures a =~= b
+{
+    ecc_fe_timesR(a); ecc_fe_timesR(b);
+    lemma_val4_bounds(a); lemma_val4_bounds(b);
+    ecc_small(val4(a)); ecc_small(val4(b));
+    lemma_val4_inj(a, b);
+}
+pub proof fn ecc_fe_zero(a: Seq<u64>) requires a.len() == 4, canon(a) || val4(a) == P() ensures (fe(a) == 0) == (val4(a) == 0 || val4(a) == P())
+{
+    ecc_pos();
+    lemma_val4_bounds(a);
+    if val4(a) == 0 {
+        assert(0 * RINV_P() == 0);
+        ecc_small(0);
+    } else if val4(a) == P() {
+        ecc_shift(0, RINV_P());
+        assert(0 + RINV_P() * P() == P() * RINV_P()) by(nonlinear_arith);
+        ecc_small(0);
+    } else {
+        ecc_fe_timesR(a);
+        ecc_small(val4(a));
+        if fe(a) == 0 { assert(0 * r256() == 0); ecc_small(0); }
+    }
+}
+// ---------------------------------------------------------------- inv_p on 0 and 1
+pub proof fn ecc_pow_one(e: nat) ensures pow_mod(1, e, P()) == 1 decreases e
+{
+    ecc_pos();
+    ecc_small(1);
+    if e > 0 { ecc_pow_one((e - 1) as nat); assert(1 * 1 == 1); }
+}
+pub proof fn ecc_inv_one() ensures inv_p(1) == 1
+{ ecc_pos(); ecc_pow_one((P() - 2) as nat); }
+pub proof fn ecc_inv_zero() ensures inv_p(0) == 0
+{
+    ecc_pos();
+    let e = (P() - 2) as nat;
+    assert(e > 0);
+    assert(pow_mod(0, e, P()) == (pow_mod(0, (e - 1) as nat, P()) * 0) % P());
+    assert(pow_mod(0, (e - 1) as nat, P()) * 0 == 0);
+    ecc_small(0);
+}
+pub proof fn ecc_inv_range(x: int) ensures 0 <= inv_p(x) < P()
+{
+    ecc_pos();
+    let e = (P() - 2) as nat;
+    assert(e > 0);
+    assert(pow_mod(x, e, P()) == (pow_mod(x, (e - 1) as nat, P()) * x) % P());
+    ecc_range(pow_mod(x, (e - 1) as nat, P()) * x);
+}
+// ---------------------------------------------------------------- abstraction of points
+// a point with z == 1 (Montgomery one) denotes (fe x, fe y)
+pub proof fn ecc_abs_z1(x: Seq<u64>, y: Seq<u64>, z: Seq<u64>)
+    requires canon(z), fe(z) == 1
+    ensures val4(z) != 0, abs_pt(x, y, z) == (Pt::Aff { x: fe(x), y: fe(y) })
+{
+    ecc_pos();
+    if val4(z) == 0 { ecc_fe_zero(z); }
+    ecc_inv_one();
+    ecc_fe_range(x); ecc_fe_range(y);
+    ecc_small(fe(x)); ecc_small(fe(y));
+    assert(fe(x) * 1 * 1 == fe(x));
+    assert(fe(y) * 1 * 1 * 1 == fe(y));
+}
+// y -> -y
+pub proof fn ecc_neg_y(y: int, yn: int, zi: int) requires yn == (0 - y) % P()
+    ensures (yn * zi * zi * zi) % P() == (P() - (y * zi * zi * zi) % P()) % P()
+{
+    ecc_pos();
+    let c = zi * zi * zi;
+    assert(yn * zi * zi * zi == yn * c) by(nonlinear_arith) requires c == zi * zi * zi;
+    assert(y * zi * zi * zi == y * c) by(nonlinear_arith) requires c == zi * zi * zi;
+    ecc_mul(0 - y, c);
+    assert((0 - y) * c == 0 - y * c) by(nonlinear_arith);
+    ecc_sub(P(), y * c);
+    ecc_shift(0 - y * c, 1);
+    assert(0 - y * c + 1 * P() == P() - y * c);
+}
+// x * zinv^2, y * zinv^3 as the code computes them
+pub proof fn ecc_affine_xy(x: int, y: int, zi: int, zi2: int, zi3: int, rx: int, ry: int)
+    requires zi2 == (zi * zi) % P(), zi3 == (zi2 * zi) % P(), rx == (x * zi2) % P(), ry == (y * zi3) % P()
+    ensures rx == (x * zi * zi) % P(), ry == (y * zi * zi * zi) % P()
+{
+    ecc_mul(x, zi * zi);
+    assert(x * (zi * zi) == x * zi * zi) by(nonlinear_arith);
+    ecc_mul(zi * zi, zi);
+    ecc_mul(y, zi2 * zi);
+    ecc_cong_mul(zi2 * zi, zi * zi * zi, y);
+    assert(y * (zi * zi * zi) == y * zi * zi * zi) by(nonlinear_arith);
+}
+// affine curve equation as the code evaluates it: ((x * ((x*x)%p + a)%p)%p + b)%p
+pub proof fn ecc_affine_rhs(x: int, xx: int, xxa: int, xxxa: int, e: int)
+    requires xx == (x * x) % P(), xxa == (xx + CA()) % P(), xxxa == (x * xxa) % P(), e == (xxxa + CB()) % P()
+    ensures e == (x * x * x + CA() * x + CB()) % P()
+{
+    ecc_add(x * x, CA());
+    ecc_mul(x, xx + CA());
+    ecc_cong_mul(xx + CA(), x * x + CA(), x);
+    assert(x * (x * x + CA()) == x * x * x + CA() * x) by(nonlinear_arith);
+    ecc_add(x * xxa, CB());
+    ecc_add(x * x * x + CA() * x, CB());
+}
+// parity of the last big-endian byte
+pub proof fn ecc_be_last(v: int) requires 0 <= v
+    ensures be_bytes(v, 32).len() == 32, (be_bytes(v, 32)[31] & 0x01 == 0) == (v % 2 == 0), (be_bytes(v, 32)[31] & 0x01) as int == v % 2
+{
+    lemma_be_bytes_len(v, 32);
+    lemma_be_bytes_len(v / 256, 31);
+    let b = (v % 256) as u8;
+    assert(be_bytes(v, 32) == be_bytes(v / 256, 31).push(b));
+    assert(be_bytes(v, 32)[31] == b);
+    assert((b & 0x01 == 0) == (b % 2 == 0)) by(bit_vector);
+    assert(b & 0x01 == b % 2) by(bit_vector);
+    assert(b as int == v % 256);
+    assert((v % 256) % 2 == v % 2);
+}
+// the right-hand side of the curve equation as from_byte evaluates it
+pub proof fn ecc_cubic(x: int, f: int)
+    requires f == ((((x * x) % P() * x) % P() + (x * CA()) % P()) % P() + CB()) % P()
+    ensures f == (x * x * x + CA() * x + CB()) % P()
+{
+    ecc_mul(x * x, x);
+    ecc_add(x * x * x, x * CA());
+    assert(x * CA() == CA() * x) by(nonlinear_arith);
+    ecc_add(x * x * x + CA() * x, CB());
+}
+// p - y has the other parity and the same square
+pub proof fn ecc_flip_y(y: int) requires 0 < y < P()
+    ensures (0 - y) % P() == P() - y, (P() - y) % 2 == 1 - y % 2, ((P() - y) * (P() - y)) % P() == (y * y) % P()
+{
+    ecc_pos();
+    ecc_shift(0 - y, 1);
+    ecc_small(P() - y);
+    assert(P() % 2 == 1) by(compute);
+    let k = P() - 2 * y;
+    assert((P() - y) * (P() - y) == y * y + k * P()) by(nonlinear_arith) requires k == P() - 2 * y;
+    ecc_shift(y * y, k);
+}
+// the group has odd order n, so there is no point of order two (x, 0)
+pub proof fn ecc_smul_even(k: int, q: Pt) requires on_curve(q), g_add(q, q) == Pt::Inf, k >= 0 ensures g_smul(2 * k, q) == Pt::Inf decreases k
+{
+    if k > 0 {
+        ecc_smul_even(k - 1, q);
+        lemma_smul_add(2 * (k - 1), 2, q);
+        assert(g_smul(0, q) == Pt::Inf);
+        assert(g_smul(1, q) == g_add(g_smul(0, q), q));
+        assert(g_smul(2, q) == g_add(g_smul(1, q), q));
+    }
+}
+pub proof fn ecc_no_2torsion(x: int) requires 0 <= x < P(), (x * x * x + CA() * x + CB()) % P() == 0 ensures false
+{
+    ecc_pos();
+    let q = Pt::Aff { x: x, y: 0 };
+    assert(0 * 0 == 0);
+    ecc_small(0);
+    assert(on_curve(q));
+    assert(g_add(q, q) == Pt::Inf);
+    assert(N() % 2 == 1 && N() > 2) by(compute);
+    let k = (N() - 1) / 2;
+    ecc_smul_even(k, q);
+    assert(g_smul(N(), q) == g_add(g_smul(N() - 1, q), q));
+    ax_group_order(q);
+}
+// ---------------------------------------------------------------- Jacobian versus affine curve equation
+// the right-hand side x(x^2 + a z^4) + b z^6 as is_valid evaluates it
+pub proof fn ecc_jac_rhs(x: int, z: int, a: int, b: int, xx: int, z2: int, z4: int, z6: int, z6b: int, az4: int, s1: int, s2: int, e: int)
+    requires xx == (x * x) % P(), z2 == (z * z) % P(), z4 == (z2 * z2) % P(), z6 == (z4 * z2) % P(), z6b == (z6 * b) % P(), az4 == (z4 * a) % P(),
+        s1 == (xx + az4) % P(), s2 == (s1 * x) % P(), e == (s2 + z6b) % P()
+    ensures e == (x * x * x + a * x * ((z * z) * (z * z)) + b * (((z * z) * (z * z)) * (z * z))) % P()
+{
+    let zz2 = z * z; let zz4 = zz2 * zz2; let zz6 = zz4 * zz2;
+    ecc_mul(zz2, zz2);
+    ecc_mul(zz4, zz2);
+    ecc_mul(zz6, b);
+    ecc_mul(zz4, a);
+    ecc_add(x * x, zz4 * a);
+    ecc_mul(x * x + zz4 * a, x);
+    ecc_add((x * x + zz4 * a) * x, zz6 * b);
+    assert((x * x + zz4 * a) * x + zz6 * b == x * x * x + a * x * zz4 + b * zz6) by(nonlinear_arith);
+}
+// powers of z and of its inverse cancel
+pub proof fn ecc_units(z: int, zi: int) requires (z * zi) % P() == 1
+    ensures ({ let z2 = z * z; let z4 = z2 * z2; let z6 = z4 * z2; let i2 = zi * zi; let i4 = i2 * i2; let i6 = i4 * i2;
+        (z6 * i6) % P() == 1 && (z4 * i6) % P() == i2 % P() && (i2 * z6) % P() == z4 % P() })
+{
+    let z2 = z * z; let z4 = z2 * z2; let z6 = z4 * z2; let i2 = zi * zi; let i4 = i2 * i2; let i6 = i4 * i2;
+    let w = z * zi; let u2 = z2 * i2; let u4 = z4 * i4;
+    assert(u2 == w * w) by(nonlinear_arith) requires u2 == (z * z) * (zi * zi), w == z * zi;
+    ecc_unit(w, w);
+    assert(u4 == u2 * u2) by(nonlinear_arith) requires u4 == (z2 * z2) * (i2 * i2), u2 == z2 * i2;
+    ecc_unit(u2, u2);
+    assert(z6 * i6 == u4 * u2) by(nonlinear_arith) requires z6 == z4 * z2, i6 == i4 * i2, u4 == z4 * i4, u2 == z2 * i2;
+    ecc_unit(u4, u2);
+    assert(z4 * i6 == u4 * i2) by(nonlinear_arith) requires i6 == i4 * i2, u4 == z4 * i4;
+    ecc_unit(i2, u4);
+    assert(i2 * z6 == u2 * z4) by(nonlinear_arith) requires z6 == z4 * z2, u2 == z2 * i2;
+    ecc_unit(z4, u2);
+}
+// affine coordinates (x / z^2, y / z^3): both sides of the affine equation in terms of x, y, 1/z
+pub proof fn ecc_aff_sides(x: int, y: int, zi: int, a: int, b: int)
+    ensures ({ let xa = (x * zi * zi) % P(); let ya = (y * zi * zi * zi) % P(); let i2 = zi * zi; let i6 = (i2 * i2) * i2;
+        (ya * ya) % P() == ((y * y) * i6) % P() && (xa * xa * xa + a * xa + b) % P() == ((x * x * x) * i6 + (a * x) * i2 + b) % P() })
+{
+    let xa = (x * zi * zi) % P(); let ya = (y * zi * zi * zi) % P(); let i2 = zi * zi; let i6 = (i2 * i2) * i2;
+    let c = zi * zi * zi;
+    // ya^2
+    ecc_mul(y * zi * zi * zi, y * zi * zi * zi);
+    assert(y * zi * zi * zi == y * c) by(nonlinear_arith) requires c == zi * zi * zi;
+    assert((y * c) * (y * c) == (y * y) * (c * c)) by(nonlinear_arith);
+    assert(c * c == i6) by(nonlinear_arith) requires c == zi * zi * zi, i6 == ((zi * zi) * (zi * zi)) * (zi * zi);
+    // xa^3
+    let t = x * i2;
+    assert(x * zi * zi == t) by(nonlinear_arith) requires t == x * (zi * zi);
+    ecc_mul(t, t);
+    ecc_mul(t * t, t);
+    ecc_mul(xa * xa, xa);
+    assert(((xa * xa) % P() * xa) % P() == ((t * t) % P() * (t % P())) % P());
+    assert((xa * xa * xa) % P() == (t * t * t) % P());
+    assert(t * t * t == (x * x * x) * i6) by(nonlinear_arith) requires t == x * i2, i6 == (i2 * i2) * i2;
+    // a * xa
+    ecc_mul(a, t);
+    assert(a * t == (a * x) * i2) by(nonlinear_arith) requires t == x * i2;
+    ecc_cong_add(xa * xa * xa, (x * x * x) * i6, a * xa, (a * x) * i2);
+    ecc_add(xa * xa * xa + a * xa, b);
+    ecc_add((x * x * x) * i6 + (a * x) * i2, b);
+}
+pub proof fn ecc_jac_equiv(x: int, y: int, z: int, zi: int, a: int, b: int) requires (z * zi) % P() == 1
+    ensures ({ let xa = (x * zi * zi) % P(); let ya = (y * zi * zi * zi) % P();
+        ((y * y) % P() == (x * x * x + a * x * ((z * z) * (z * z)) + b * (((z * z) * (z * z)) * (z * z))) % P())
+        == ((ya * ya) % P() == (xa * xa * xa + a * xa + b) % P()) })
+{
+    let z2 = z * z; let z4 = z2 * z2; let z6 = z4 * z2; let i2 = zi * zi; let i4 = i2 * i2; let i6 = i4 * i2;
+    let xa = (x * zi * zi) % P(); let ya = (y * zi * zi * zi) % P();
+    let x3 = x * x * x; let ax = a * x;
+    let lj = y * y; let rj = x3 + a * x * z4 + b * z6;
+    let t = x3 * i6 + ax * i2 + b;
+    ecc_units(z, zi);
+    ecc_aff_sides(x, y, zi, a, b);
+    // rj * i6 == t (mod p)
+    assert(rj * i6 == x3 * i6 + ax * (z4 * i6) + b * (z6 * i6)) by(nonlinear_arith) requires rj == x3 + a * x * z4 + b * z6, ax == a * x;
+    ecc_cong_mul(z4 * i6, i2, ax);
+    ecc_unit(b, z6 * i6);
+    ecc_cong_add(ax * (z4 * i6), ax * i2, b * (z6 * i6), b);
+    ecc_cong_add(x3 * i6, x3 * i6, ax * (z4 * i6) + b * (z6 * i6), ax * i2 + b);
+    assert((rj * i6) % P() == t % P());
+    // t * z6 == rj (mod p)
+    assert(t * z6 == x3 * (z6 * i6) + ax * (i2 * z6) + b * z6) by(nonlinear_arith) requires t == x3 * i6 + ax * i2 + b;
+    ecc_unit(x3, z6 * i6);
+    ecc_cong_mul(i2 * z6, z4, ax);
+    ecc_cong_add(x3 * (z6 * i6), x3, ax * (i2 * z6), ax * z4);
+    ecc_cong_add(x3 * (z6 * i6) + ax * (i2 * z6), x3 + ax * z4, b * z6, b * z6);
+    assert(ax * z4 == a * x * z4);
+    assert((t * z6) % P() == rj % P());
+    // (lj * i6) * z6 == lj (mod p)
+    assert((lj * i6) * z6 == lj * (z6 * i6)) by(nonlinear_arith);
+    ecc_unit(lj, z6 * i6);
+    if lj % P() == rj % P() {
+        ecc_cong_mul(lj, rj, i6);
+    }
+    if (lj * i6) % P() == t % P() {
+        ecc_cong_mul(lj * i6, t, z6);
+    }
+}
+// ---------------------------------------------------------------- group facts for the window method
+pub proof fn ecc_smul_one(a: Pt) ensures g_smul(1, a) == a, g_smul(0, a) == Pt::Inf
+{
+    assert(g_smul(0, a) == Pt::Inf);
+    assert(g_smul(1, a) == g_add(g_smul(0, a), a));
+}
+pub proof fn ecc_smul_inf(k: int) ensures g_smul(k, Pt::Inf) == Pt::Inf decreases k
+{ if k > 0 { ecc_smul_inf(k - 1); } }
+pub proof fn ecc_smul_mul(j: int, k: int, a: Pt) requires on_curve(a), j >= 0, k >= 0 ensures g_smul(j * k, a) == g_smul(j, g_smul(k, a)) decreases j
+{
+    if j > 0 {
+        ecc_smul_mul(j - 1, k, a);
+        assert(j * k == (j - 1) * k + k) by(nonlinear_arith);
+        assert((j - 1) * k >= 0) by(nonlinear_arith) requires j >= 1, k >= 0;
+        lemma_smul_add((j - 1) * k, k, a);
+    } else {
+        assert(0 * k == 0);
+    }
+}
+pub proof fn ecc_neg_props(q: Pt) requires on_curve(q) ensures on_curve(g_neg(q)), g_add(q, g_neg(q)) == Pt::Inf
+{
+    ecc_pos();
+    match q {
+        Pt::Inf => {},
+        Pt::Aff { x, y } => {
+            if y == 0 {
+                ecc_shift(0, 1); ecc_small(0);
+                assert((P() - 0) % P() == 0);
+            } else {
+                ecc_flip_y(y);
+                ecc_small(P() - y);
+                ecc_shift(0, 1); ecc_small(0);
+                assert((y + (P() - y)) % P() == 0);
+            }
+        }
+    }
+}
+pub proof fn ecc_cancel(m: Pt, q: Pt) requires on_curve(m), on_curve(q), g_add(m, q) == q ensures m == Pt::Inf
+{
+    ecc_neg_props(q);
+    ax_group_assoc(m, q, g_neg(q));
+}
+// n is prime (ax_inv_n) and kills every point (ax_group_order): a non-trivial point has no smaller multiple equal to infinity
+pub proof fn ecc_order(k: int, a: Pt) requires on_curve(a), 0 < k < N(), g_smul(k, a) == Pt::Inf ensures a == Pt::Inf
+{
+    lemma_params();
+    lemma_small_mod(k as nat, N() as nat);
+    ax_inv_n(k);
+    let ki = inv_n(k);
+    let x = k * ki;
+    let t = x / N();
+    lemma_fundamental_div_mod(x, N());
+    assert(x >= 0) by(nonlinear_arith) requires x == k * ki, k > 0, ki >= 0;
+    lemma_div_pos_is_pos(x, N());
+    assert(x == t * N() + 1) by(nonlinear_arith) requires x == N() * t + 1;
+    // (ki * k) a == ki (k a) == Inf
+    assert(x == ki * k) by(nonlinear_arith) requires x == k * ki;
+    ecc_smul_mul(ki, k, a);
+    ecc_smul_inf(ki);
+    // (t n + 1) a == t (n a) + a == a
+    ecc_smul_mul(t, N(), a);
+    ax_group_order(a);
+    ecc_smul_inf(t);
+    assert(t * N() >= 0) by(nonlinear_arith) requires t >= 0, N() > 0;
+    lemma_smul_add(t * N(), 1, a);
+    ecc_smul_one(a);
+}
+// distinct small multiples of a point are distinct points (or both infinity): the excluded case D13 of point_add cannot occur
+pub proof fn ecc_no_d13(j: int, k: int, a: Pt) requires on_curve(a), 0 <= j, 0 <= k, j != k, j + k < N()
+    ensures !(g_smul(j, a) == g_smul(k, a) && g_smul(j, a) != Pt::Inf)
+{
+    if g_smul(j, a) == g_smul(k, a) && g_smul(j, a) != Pt::Inf {
+        let (lo, hi) = if j < k { (j, k) } else { (k, j) };
+        let m = hi - lo;
+        lemma_smul_add(m, lo, a);
+        lemma_smul_closed(m, a); lemma_smul_closed(lo, a);
+        ecc_cancel(g_smul(m, a), g_smul(lo, a));
+        ecc_order(m, a);
+        ecc_smul_inf(j);
+    }
+}
+// ---------------------------------------------------------------- scalar digits (4-bit windows, most significant first)
+pub open spec fn ecc_pow16(j: int) -> int decreases j { if j <= 0 { 1 } else { 16 * ecc_pow16(j - 1) } }
+// the top j nibbles of a limb
+pub open spec fn ecc_tj(w: u64, j: int) -> u64 { if j <= 0 { 0u64 } else { w >> ((64 - 4 * j) as u64) } }
+// the value of the i most significant limbs
+pub open spec fn ecc_hi(s: Seq<u64>, i: int) -> int {
+    if i <= 0 { 0 } else if i == 1 { s[3] as int } else if i == 2 { 0x1_0000_0000_0000_0000int * (s[3] as int) + s[2] as int }
+    else if i == 3 { 0x1_0000_0000_0000_0000int * (0x1_0000_0000_0000_0000int * (s[3] as int) + s[2] as int) + s[1] as int }
+    else { 0x1_0000_0000_0000_0000int * (0x1_0000_0000_0000_0000int * (0x1_0000_0000_0000_0000int * (s[3] as int) + s[2] as int) + s[1] as int) + s[0] as int }
+}
+pub proof fn ecc_hi_props(s: Seq<u64>, i: int) requires s.len() == 4, 0 <= i < 4
+    ensures ecc_hi(s, i + 1) == 0x1_0000_0000_0000_0000int * ecc_hi(s, i) + s[3 - i] as int, 0 <= ecc_hi(s, i), ecc_hi(s, i + 1) <= val4(s), ecc_hi(s, 4) == val4(s), ecc_hi(s, 0) == 0
+{ }
+pub proof fn ecc_pow16_le(j: int, k: int) requires 0 <= j <= k ensures 0 < ecc_pow16(j) <= ecc_pow16(k) decreases k
+{
+    if k > 0 {
+        if j < k { ecc_pow16_le(j, k - 1); } else { ecc_pow16_le(j - 1, k - 1); }
+    }
+}
+pub proof fn ecc_pow16_16() ensures ecc_pow16(16) == 0x1_0000_0000_0000_0000int, ecc_pow16(0) == 1
+{ assert(ecc_pow16(16) == 0x1_0000_0000_0000_0000int) by(compute); }
+// one window step inside limb w: nibble number j (0 = most significant), shift k = 4 (15 - j)
+pub proof fn ecc_nibble(w: u64, j: int)
+    requires 0 <= j < 16
+    ensures ({ let k = ((15 - j) * 4) as u64; let index = w >> k; let d = index & 0x0f;
+        d < 16 && index == ecc_tj(w, j + 1) && index as int == 16 * (ecc_tj(w, j) as int) + d as int && index <= w
+        && (d != 0 ==> index >= 1 && ((index - 1) as u64) & 0x0f == d - 1) })
+{
+    let k = ((15 - j) * 4) as u64;
+    let index = w >> k; let d = index & 0x0f;
+    assert(k <= 60 && k % 4 == 0);
+    assert((64 - 4 * (j + 1)) as u64 == k);
+    assert((w >> k) & 0x0f < 16) by(bit_vector);
+    assert((w >> k) <= w) by(bit_vector);
+    if j == 0 {
+        assert(k == 60);
+        assert((w >> 60u64) == (w >> 60u64) & 0x0f) by(bit_vector);
+    } else {
+        let k4 = (k + 4) as u64;
+        assert((64 - 4 * j) as u64 == k4);
+        assert((w >> k) == 16 * (w >> k4) + ((w >> k) & 0x0f)) by(bit_vector) requires k <= 56, k4 == k + 4;
+    }
+    if d != 0 {
+        assert(index >= 1 && ((index - 1) as u64) & 0x0f == (index & 0x0f) - 1) by(bit_vector) requires index & 0x0f != 0;
+    }
+}
+pub proof fn ecc_tj_16(w: u64) ensures ecc_tj(w, 16) == w, ecc_tj(w, 0) == 0
+{ assert(w >> 0u64 == w) by(bit_vector); }
+pub proof fn ecc_acc_step(hi: int, pj: int, tjo: int, tjn: int, d: int, acc: int) requires acc == hi * pj + tjo, tjn == 16 * tjo + d
+    ensures 16 * acc + d == hi * (16 * pj) + tjn
+{ assert(16 * (hi * pj) == hi * (16 * pj)) by(nonlinear_arith); }
+pub proof fn ecc_acc_bound(hi: int, pw: int, t: int, w: int) requires 0 <= hi, 0 < pw <= 0x1_0000_0000_0000_0000int, 0 <= t <= w
+    ensures hi * pw + t <= 0x1_0000_0000_0000_0000int * hi + w, 0 <= hi * pw
+{
+    assert(hi * pw <= hi * 0x1_0000_0000_0000_0000int) by(nonlinear_arith) requires 0 <= hi, 0 < pw <= 0x1_0000_0000_0000_0000int;
+    assert(0 <= hi * pw) by(nonlinear_arith) requires 0 <= hi, 0 < pw;
+}
